@@ -196,6 +196,10 @@ def vec(env, name, patt):
         else:
             x = env.real(f"{name}{i}", lo=-7, hi=7, nonzero=True)
             env.assume(abs(x) >= 1e-3, "")
+            if env.symbolic:
+                from fractions import Fraction
+                from symx import num
+                num.ctx().info[num.ctx().by_name[f"{name}{i}"]]["absmin"] = Fraction(1, 1000)
             out.append(x)
     return out
 
@@ -203,11 +207,13 @@ def vec(env, name, patt):
 @contextlib.contextmanager
 def sym_alloc(env):
     """np.zeros(..., dtype=float) inside the shimmed modules allocate object arrays while parameters are symbolic"""
+    import io
     from symx import shim
     old = shim.ALLOC_OBJECT
     shim.ALLOC_OBJECT = bool(env.symbolic)
     try:
-        yield
+        with contextlib.redirect_stdout(io.StringIO()):      # UCCGD prints debugging output
+            yield
     finally:
         shim.ALLOC_OBJECT = old
 
@@ -267,16 +273,36 @@ def states_of(c1, c2):
 
 
 MAX_SYM_QUBITS = 4
+MAX_SYM_VARS = 4
 MAX_NUM_QUBITS = 10
+
+
+def _sym_vars(*circuits):
+    vs = set()
+    for c in circuits:
+        for g in c._gates:
+            if isinstance(g.parameter, Sym):
+                vs |= g.parameter.p.variables()
+    from symx import num
+    return vs - {num.ctx().pi}
+
+
+def refute_by_replay(env, label, detail):
+    """symbolic mode: hand the question to the concrete replay (inputs from a solver model of the path condition);
+    reproduces -> violation, otherwise the obligation is reported inconclusive"""
+    from symx.num import Poly
+    from symx.smt import Cons
+    env.check_true(Cons(Poly.const(1), "=="), label, detail)
 
 
 def compare(env, c1, c2, what):
     """c1: circuit after the updates, c2: freshly built circuit"""
     n = max(c1.width, c2.width)
+    lab = f"{what}: state after updates == state of the fresh circuit (up to phase)"
     if not env.symbolic:
         if n <= MAX_NUM_QUBITS:
             _, s1, s2 = states_of(c1, c2)
-            env.check_vec_eq_up_to_phase(s1, s2, f"{what}: state after updates == state of the fresh circuit (up to phase)")
+            env.check_vec_eq_up_to_phase(s1, s2, lab)
         return
     ok, why = same_structure(c1._gates, c2._gates)
     if ok:
@@ -287,12 +313,11 @@ def compare(env, c1, c2, what):
         env.check_vec_eq(pa, pb, f"{what}: gate list after updates == fresh gate list (parameters as polynomials)")
         env.check_same(len(c1._gates), len(c2._gates), f"{what}: same number of gates")
         return
-    if n <= MAX_SYM_QUBITS:
+    if n <= MAX_SYM_QUBITS and len(_sym_vars(c1, c2)) <= MAX_SYM_VARS:
         _, s1, s2 = states_of(c1, c2)
-        env.check_vec_eq_up_to_phase(s1, s2, f"{what}: state after updates == state of the fresh circuit (up to phase)")
+        env.check_vec_eq_up_to_phase(s1, s2, lab)
         return
-    env.fail(f"{what}: state after updates == state of the fresh circuit (up to phase)",
-             f"gate lists differ on {n} qubits ({why}); not decidable symbolically, numeric replay only")
+    refute_by_replay(env, lab, f"gate lists differ on {n} qubits ({why}); beyond the symbolic state comparison, numeric replay only")
 
 
 def params_equal_poly(a, b):
